@@ -4,24 +4,28 @@ import (
 	"fmt"
 	"strings"
 
+	. "verifharness/hlib"
+
 	"github.com/buchgr/bazel-remote/v2/cache/disk"
 )
 
-func init() { drivers["lru"] = lruDriver }
+func main() { Main("lru", lruDriver) }
 
 func citem(i disk.VerifItem) string {
-	return fmt.Sprintf("(mkItem %s %s %s %s)", cz(i.Size), cz(i.SizeOnDisk), cs(i.Random), cb(i.Legacy))
+	return fmt.Sprintf("(mkItem %s %s %s %s)", CZ(i.Size), CZ(i.SizeOnDisk), CS(i.Random), CB(i.Legacy))
 }
-func centry(e disk.VerifEntry) string { return fmt.Sprintf("(mkEntry %s %s)", cs(e.Key), citem(e.Item)) }
+func centry(e disk.VerifEntry) string {
+	return fmt.Sprintf("(mkEntry %s %s)", CS(e.Key), citem(e.Item))
+}
 func centries(es []disk.VerifEntry) string {
 	var xs []string
 	for _, e := range es {
 		xs = append(xs, centry(e))
 	}
-	return clist(xs)
+	return CList(xs)
 }
 func csnap(s disk.VerifSnapshot) string {
-	return fmt.Sprintf("(mkSnap %s %s %s %s %s %s %s)", centries(s.Order), cz(s.Cur), cz(s.Unc), cz(s.Res), cz(s.Queued), cu(s.Peak), centries(s.Queue))
+	return fmt.Sprintf("(mkSnap %s %s %s %s %s %s %s)", centries(s.Order), CZ(s.Cur), CZ(s.Unc), CZ(s.Res), CZ(s.Queued), CU(s.Peak), centries(s.Queue))
 }
 func cerr(code int) string {
 	switch code {
@@ -70,28 +74,28 @@ func lruOracle(s disk.VerifSnapshot, max int64) string {
 }
 
 func lruDriver(seed uint64, n int, outV, outJSON string, _ []string) {
-	r := &rng{s: seed}
-	rep := newReport("lru", seed)
+	r := &Rng{S: seed}
+	rep := NewReport("lru", seed)
 	rep.Rule = "random SizedLRU histories (Add/overwrite, Get, RemoveKey, RemoveElement via fresh handle, Reserve, Unreserve, Drain) over 6 keys; sizes drawn from block-edge classes relative to max_size; a case is non-trivial if at least one eviction or one refusal occurred; distinct = distinct canonical case texts among those"
 	var cases []string
 	for c := 0; c < n; c++ {
-		blocks := []int64{2, 3, 4, 5, 8, 16}[r.intn(6)]
+		blocks := []int64{2, 3, 4, 5, 8, 16}[r.Intn(6)]
 		max := blocks * 4096
-		if r.chance(15) {
-			max += []int64{-1, 1, 100, 4095}[r.intn(4)] // max_size need not be block aligned
+		if r.Chance(15) {
+			max += []int64{-1, 1, 100, 4095}[r.Intn(4)] // max_size need not be block aligned
 		}
 		var hard int64
-		switch r.intn(4) {
+		switch r.Intn(4) {
 		case 1:
 			hard = max
 		case 2:
-			hard = max + 4096*int64(1+r.intn(3))
+			hard = max + 4096*int64(1+r.Intn(3))
 		case 3:
-			hard = max + 8192 + int64(r.intn(5000))
+			hard = max + 8192 + int64(r.Intn(5000))
 		}
 		sizes := []int64{0, 1, 100, 4095, 4096, 4097, 8192, 8193, 12288, max - 4096, max - 1, max, max + 1, 2 * max}
 		v := disk.NewVerifLRU(max, hard)
-		nops := 4 + r.intn(28)
+		nops := 4 + r.Intn(28)
 		var ops, obs, text []string
 		nontrivial := false
 		reserved := []int64{}
@@ -119,51 +123,51 @@ func lruDriver(seed uint64, n int, outV, outJSON string, _ []string) {
 		for i := 0; i < nops; i++ {
 			before := v.Snapshot()
 			var op, out, t string
-			k := fmt.Sprintf("cas/k%d", r.intn(6))
-			switch p := r.intn(100); {
+			k := fmt.Sprintf("cas/k%d", r.Intn(6))
+			switch p := r.Intn(100); {
 			case p < 40:
-				sz := r.pick(sizes)
+				sz := r.Pick(sizes)
 				if sz < 0 {
 					sz = 0
 				}
 				od := sz
-				switch r.intn(4) {
+				switch r.Intn(4) {
 				case 0:
 					od = sz/3 + 29 + 16 // compressible
 				case 1:
 					od = sz + 45 // header overhead
 				}
-				it := disk.VerifItem{Size: sz, SizeOnDisk: od, Random: fmt.Sprintf("%d", r.intn(1000000)), Legacy: r.chance(20)}
+				it := disk.VerifItem{Size: sz, SizeOnDisk: od, Random: fmt.Sprintf("%d", r.Intn(1000000)), Legacy: r.Chance(20)}
 				ok := v.Add(k, it)
-				op, out = fmt.Sprintf("OAdd %s %s", cs(k), citem(it)), "RBool "+cb(ok)
+				op, out = fmt.Sprintf("OAdd %s %s", CS(k), citem(it)), "RBool "+CB(ok)
 				t = fmt.Sprintf("Add(%s,size=%d,ondisk=%d)=%v", k, sz, od, ok)
-				rep.count("op.add")
+				rep.Count("op.add")
 				if ok {
 					touch(k)
 				} else {
-					rep.count("add.refused")
+					rep.Count("add.refused")
 					nontrivial = true
 				}
 			case p < 55:
 				it, hit := v.Get(k)
-				op = "OGet " + cs(k)
+				op = "OGet " + CS(k)
 				if hit {
 					out = "RHit " + citem(it)
 					touch(k)
-					rep.count("get.hit")
+					rep.Count("get.hit")
 				} else {
 					out = "RMiss"
-					rep.count("get.miss")
+					rep.Count("get.miss")
 				}
 				t = fmt.Sprintf("Get(%s)=%v", k, hit)
 			case p < 60:
 				v.RemoveKey(k)
 				drop(k)
-				op, out, t = "ORemoveKey "+cs(k), "RUnit", "RemoveKey("+k+")"
-				rep.count("op.removekey")
+				op, out, t = "ORemoveKey "+CS(k), "RUnit", "RemoveKey("+k+")"
+				rep.Count("op.removekey")
 			case p < 65:
 				hit := v.RemoveViaHandle(k)
-				op = "ORemoveElem " + cs(k)
+				op = "ORemoveElem " + CS(k)
 				if hit {
 					out = "RUnit"
 				} else {
@@ -171,28 +175,28 @@ func lruDriver(seed uint64, n int, outV, outJSON string, _ []string) {
 				}
 				drop(k)
 				t = fmt.Sprintf("RemoveElement(Get(%s))=%v", k, hit)
-				rep.count("op.removeelem")
+				rep.Count("op.removeelem")
 			case p < 82:
-				sz := r.pick(sizes)
-				if r.chance(5) {
+				sz := r.Pick(sizes)
+				if r.Chance(5) {
 					sz = -1
 				}
 				code := v.Reserve(sz)
-				op = "OReserve " + cz(sz)
+				op = "OReserve " + CZ(sz)
 				if code == 0 {
 					out = "RUnit"
 					if sz > 0 {
 						reserved = append(reserved, sz)
 					}
-					rep.count("reserve.ok")
+					rep.Count("reserve.ok")
 				} else {
 					out = cerr(code)
-					rep.count(fmt.Sprintf("reserve.err%d", code))
+					rep.Count(fmt.Sprintf("reserve.err%d", code))
 					nontrivial = true
 					// C17 oracle: the refusal must be pure
 					after := v.Snapshot()
 					if len(after.Order) != len(before.Order) || after.Cur != before.Cur || after.Res != before.Res || after.Queued != before.Queued {
-						rep.fail(c, "refused Reserve changed the index or the accounting", strings.Join(text, " ; "))
+						rep.Fail(c, "refused Reserve changed the index or the accounting", strings.Join(text, " ; "))
 					}
 				}
 				t = fmt.Sprintf("Reserve(%d)=%d", sz, code)
@@ -200,33 +204,33 @@ func lruDriver(seed uint64, n int, outV, outJSON string, _ []string) {
 				if sz > 0 && sz <= max && sz+before.Res <= max {
 					wantRefuse := hard > 0 && before.Cur+before.Queued+sz > hard
 					if wantRefuse != (code == 507) {
-						rep.fail(c, fmt.Sprintf("hard-limit admission: cur=%d queued=%d size=%d hard=%d but Reserve returned %d", before.Cur, before.Queued, sz, hard, code), strings.Join(append(text, t), " ; "))
+						rep.Fail(c, fmt.Sprintf("hard-limit admission: cur=%d queued=%d size=%d hard=%d but Reserve returned %d", before.Cur, before.Queued, sz, hard, code), strings.Join(append(text, t), " ; "))
 					}
 				}
 			case p < 92:
 				var sz int64
-				if len(reserved) > 0 && r.chance(85) {
-					j := r.intn(len(reserved))
+				if len(reserved) > 0 && r.Chance(85) {
+					j := r.Intn(len(reserved))
 					sz = reserved[j]
 					reserved = append(reserved[:j], reserved[j+1:]...)
 				} else {
-					sz = r.pick(sizes)
+					sz = r.Pick(sizes)
 				}
 				code := v.Unreserve(sz)
-				op = "OUnreserve " + cz(sz)
+				op = "OUnreserve " + CZ(sz)
 				if code == 0 {
 					out = "RUnit"
 					// keep the harness's own list consistent when an unpaired unreserve succeeded
 				} else {
 					out = cerr(code)
-					rep.count("unreserve.err")
+					rep.Count("unreserve.err")
 				}
 				t = fmt.Sprintf("Unreserve(%d)=%d", sz, code)
 			default:
 				ev := v.Drain()
 				op, out = "ODrain", "RDrained "+centries(ev)
 				t = fmt.Sprintf("Drain()=%d", len(ev))
-				rep.count("op.drain")
+				rep.Count("op.drain")
 			}
 			after := v.Snapshot()
 			text = append(text, t)
@@ -243,10 +247,10 @@ func lruDriver(seed uint64, n int, outV, outJSON string, _ []string) {
 			}
 			if gone > 0 {
 				nontrivial = true
-				rep.count("evictions")
+				rep.Count("evictions")
 				for j, kk := range recency {
 					if (j < gone) == present[kk] {
-						rep.fail(c, "eviction not in least-recently-used order: "+kk, strings.Join(text, " ; "))
+						rep.Fail(c, "eviction not in least-recently-used order: "+kk, strings.Join(text, " ; "))
 						break
 					}
 				}
@@ -256,15 +260,15 @@ func lruDriver(seed uint64, n int, outV, outJSON string, _ []string) {
 			if len(after.Order) == len(recency) {
 				for j := range recency {
 					if after.Order[j].Key != recency[j] {
-						rep.fail(c, "recency list differs from last-use order", strings.Join(text, " ; "))
+						rep.Fail(c, "recency list differs from last-use order", strings.Join(text, " ; "))
 						break
 					}
 				}
 			} else {
-				rep.fail(c, "recency list length differs from the set of live keys", strings.Join(text, " ; "))
+				rep.Fail(c, "recency list length differs from the set of live keys", strings.Join(text, " ; "))
 			}
 			if msg := lruOracle(after, max); msg != "" {
-				rep.fail(c, msg, strings.Join(text, " ; "))
+				rep.Fail(c, msg, strings.Join(text, " ; "))
 			}
 			_ = evictedBefore
 			ops = append(ops, "("+op+")")
@@ -274,14 +278,14 @@ func lruDriver(seed uint64, n int, outV, outJSON string, _ []string) {
 		caseText := strings.Join(text, " ; ")
 		rep.CaseTexts = append(rep.CaseTexts, caseText)
 		if nontrivial {
-			rep.distinct(caseText)
+			rep.DistinctCase(caseText)
 		}
 		if c < 3 {
 			rep.Samples = append(rep.Samples, caseText)
 		}
-		cases = append(cases, fmt.Sprintf("(%s, %s, %s,\n  %s)", cz(max), cz(hard), clist(ops), clist(obs)))
+		cases = append(cases, fmt.Sprintf("(%s, %s, %s,\n  %s)", CZ(max), CZ(hard), CList(ops), CList(obs)))
 	}
 	rep.Cases = n
-	writeCases(outV, "Model.LRU", "Z * Z * list op * list (out * snap)", "case_ok", cases)
-	rep.write(outJSON)
+	WriteCases(outV, "Model.LRU", "Z * Z * list op * list (out * snap)", "case_ok", cases)
+	rep.Write(outJSON)
 }
